@@ -932,3 +932,52 @@ Proof.
   constructor; cbn; try lia; try lra; try reflexivity;
     repeat (constructor; try lra).
 Qed.
+
+(* grouped, as stated in Props/C18.v *)
+Lemma leaky_safe_all m g ic x : 0 < g ->
+  Safe (en_of [x; m; g; ic]) (leaky_inv_t (Var 1) (Var 2) (Var 3) (Var 0)) /\
+  Safe (en_of [x; m; g; ic]) (leaky_fwd_t (Var 1) (Var 2) (Var 3) (Var 0)) /\
+  Safe (en_of [x; m; g; ic]) (leaky_ld_fwd_t (Var 1) (Var 2) (Var 0)) /\
+  Safe (en_of [x; m; g; ic]) (leaky_ld_inv_t (Var 1) (Var 2) (Var 3) (Var 0)).
+Proof.
+  intros H. split; [|split; [|split]];
+    [apply leaky_inv_safe_all; lra | apply leaky_fwd_safe_all | now apply leaky_ld_fwd_safe_all | now apply leaky_ld_inv_safe_all].
+Qed.
+Lemma elementary_safe_all loc scale y :
+  Safe (en_of [y]) (tanh_log_grad_t (Var 0)) /\
+  (0 < y -> Safe (en_of [y]) (softplus_inv_t (Var 0)) /\ Safe (en_of [y]) (softplus_ld_inv_t (Var 0)) /\
+            Safe (en_of [y]) (exp_inv_t (Var 0)) /\ Safe (en_of [y]) (exp_ld_inv_t (Var 0))) /\
+  (-1 < y < 1 -> Safe (en_of [y]) (tanh_inv_t (Var 0)) /\ Safe (en_of [y]) (tanh_ld_inv_t (Var 0))) /\
+  (scale <> 0 -> Safe (en_of [y; loc; scale]) (affine_inv_t (Var 1) (Var 2) (Var 0)) /\
+                 Safe (en_of [y; loc; scale]) (affine_ld_t (Var 2))).
+Proof.
+  split; [apply tanh_log_grad_safe_all|]. split; [|split].
+  - intros H. split; [|split; [|split]];
+      [apply softplus_inv_safe | apply softplus_ld_inv_safe | apply exp_inv_safe | apply exp_ld_inv_safe]; try exact I; exact H.
+  - intros H. split; [apply tanh_inv_safe_inside | apply tanh_ld_inv_safe_inside]; try exact I; exact H.
+  - apply affine_inv_safe_all.
+Qed.
+Lemma rqs_safe_all xp yp dv lo hi x : rqs_valid xp yp dv lo hi ->
+  let en := en3 x lo hi xp yp dv in
+  Safe en (rqs_fwd_t 3 (Var 1) (Var 2) (Var 0)) /\
+  Safe en (rqs_deriv_t 3 (Var 1) (Var 2) (Var 0)) /\ 0 < ev en (rqs_deriv_t 3 (Var 1) (Var 2) (Var 0)) /\
+  Safe en (rqs_inv_t 3 (Var 1) (Var 2) (Var 0)) /\
+  Safe en (rqs_ld_inv_t 3 (Var 1) (Var 2) (Var 0)).
+Proof.
+  intros V en. destruct (rqs_deriv_safe_all xp yp dv lo hi x V) as [Hd Hp].
+  split; [now apply rqs_fwd_safe_all|]. split; [exact Hd|]. split; [exact Hp|].
+  split; [now apply rqs_inv_safe_all | now apply rqs_ld_inv_safe_all].
+Qed.
+Lemma log_prob_finite_instances inverted normal x bloc bscale : (normal = true -> bscale <> 0) ->
+  (forall m, let en := en10 x m (leaky_grad ROps m) (leaky_icpt ROps m) 0 0 0 1 bloc bscale [] [] [] in
+     (exists v, eval OROps (lift en) (lp_t LLeaky inverted normal) = Some v) /\
+     (forall t, exists r, vjp OROps (lift en) (lp_t LLeaky inverted normal) (Some 1) t = Some r)) /\
+  (forall lo hi xp yp dv, rqs_valid xp yp dv lo hi ->
+     let en := en10 x 0 1 0 lo hi 0 1 bloc bscale xp yp dv in
+     (exists v, eval OROps (lift en) (lp_t LRqs inverted normal) = Some v) /\
+     (forall t, exists r, vjp OROps (lift en) (lp_t LRqs inverted normal) (Some 1) t = Some r)).
+Proof.
+  intros H. split.
+  - intros m. now apply leaky_log_prob_finite.
+  - intros lo hi xp yp dv V. now apply rqs_log_prob_finite.
+Qed.
